@@ -24,7 +24,7 @@ static const char * vocab[4] = {"ABcd", "EFgh", "IJ", "KLMno"};
 
 static unsigned long long n_calls = 0, n_accept = 0, n_reject = 0, n_api = 0, n_api_accept = 0, n_numbers = 0;
 #define SENT 0x5a5a5a5a
-#define DEFV (-4242)
+#define DEFV (-424242)      /* a default that does not fit 16 bits */
 
 /* ---- public API path ---------------------------------------------------------------------------------- */
 static scpi_t ctx;
